@@ -146,6 +146,7 @@ def run(ctx):
                       "%s rejected by the reference parser (%s) in %d configuration(s), e.g. %s: %s" % (
                           fn, cls, len(cfgids), cfgids[0], lst[0][1].replace("\n", " | ")[:300]),
                       {"file": fn, "class": cls, "configs": cfgids})
+    ctx.require(nfiles >= 1000 * len([b for b in builds if b.rc == 0]), "only %d files parsed for %d builds" % (nfiles, len(builds)))
     ctx.extra["configurations"] = len(cfgs)
     ctx.extra["files_checked"] = nfiles
     ctx.samples = [{"cfg": c.id} for c in cfgs[:3]] + [{"failure": k[0], "class": k[1]} for k in list(agg)[:3]]
